@@ -197,7 +197,7 @@ func buildReverseDFA(
 	case UseDFA:
 		// Skip for non-greedy patterns: forward DFA always finds leftmost-longest,
 		// which is incompatible with non-greedy semantics.
-		if result.dfa != nil && !hasNonGreedyQuantifier(re) {
+		if result.dfa != nil && !hasNonGreedyQuantifier(re) && !reverseDropsAssertion(re) {
 			reverseNFA := nfa.ReverseAnchored(nfaEngine)
 			revDFA, err := lazy.CompileWithConfig(reverseNFA, revDFAConfig)
 			if err == nil {
@@ -208,10 +208,12 @@ func buildReverseDFA(
 		fwdDFA, err := lazy.CompileWithPrefilter(nfaEngine, dfaConfig, pf)
 		if err == nil {
 			result.dfa = fwdDFA
-			reverseNFA := nfa.ReverseAnchored(nfaEngine)
-			revDFA, revErr := lazy.CompileWithConfig(reverseNFA, revDFAConfig)
-			if revErr == nil {
-				result.reverseDFA = revDFA
+			if !reverseDropsAssertion(re) {
+				reverseNFA := nfa.ReverseAnchored(nfaEngine)
+				revDFA, revErr := lazy.CompileWithConfig(reverseNFA, revDFAConfig)
+				if revErr == nil {
+					result.reverseDFA = revDFA
+				}
 			}
 		}
 	}
